@@ -11,7 +11,7 @@ THEOREMS = ["Drand.Beacon." + t for t in [
     "c03_own_index_never_counts", "c03_out_of_window_never_counts", "c03_wrong_round_never_counts", "c03_wrong_prev_never_counts",
     "c03_duplicate_never_counts", "c03_refused_changes_no_len", "processPartial_cases", "processPartial_admitted",
     "append_inv", "flush_inv", "step_inv3", "run_inv3", "toy3_recoverSpec",
-    "c03_distinct", "c03_duplicate_ignored", "c03_malformed_ignored",
+    "c03_distinct", "c03_duplicate_ignored", "c03_malformed_ignored", "append_duplicate", "tie_cache_append_variant",
     "tie_processPartial", "tie_aggregator_partial", "tie_aggregator_init", "tie_window", "tie_processPartial_guards",
     "tie_aggregator_guards", "tie_live_group_switch"]] + \
     ["Drand.Net.Reshare." + t for t in ['tie_group_node_lookup', 'c03_member_lookup_exact', 'c03_hole_is_not_member', 'c03_admitted_is_member', 'c03_nonmember_index_never_counts', 'c07_old_epoch_never_counts', 'c07_held_members_run', 'c07_beacon_needs_new_members', 'tie_aggregator_threshold_in_loop']]
